@@ -41,25 +41,25 @@ type segRec struct {
 }
 
 type engine struct {
-	cs      *c14Case
-	o       *pt.Obs
-	opts    sut.Options
-	c       *sut.Client
-	paths   map[string]string
-	nowMs   int64
-	hzMs    int64
-	hzStep  int64 // horizon in seconds rounded down to mStepSec
-	segs    []*segRec
-	knownL  map[string]bool // segment keys seen in segmeta.json so far
-	knownM  map[string]bool
-	lenient bool            // after a restart / crash: what happened to unrotated data is not C14's business
-	restarted bool          // the server was restarted at least once: metricmeta.json may hold replayed entries
-	extra   []evt           // events added to open segments after the passes (After phase)
-	extraAt map[pair][]evt  // ... per (org,index)
-	rotatedOpen bool        // After == rotate done: open segments now have segmeta entries
-	flushedAll  bool        // a flush was done after the open segments were written
-	lastMRot    time.Time   // when the last metrics rotation returned
-	volume  bool            // volume-based pass: victims are read from the metadata files (decideVolume)
+	cs          *c14Case
+	o           *pt.Obs
+	opts        sut.Options
+	c           *sut.Client
+	paths       map[string]string
+	nowMs       int64
+	hzMs        int64
+	hzStep      int64 // horizon in seconds rounded down to mStepSec
+	segs        []*segRec
+	knownL      map[string]bool // segment keys seen in segmeta.json so far
+	knownM      map[string]bool
+	lenient     bool           // after a restart / crash: what happened to unrotated data is not C14's business
+	restarted   bool           // the server was restarted at least once: metricmeta.json may hold replayed entries
+	extra       []evt          // events added to open segments after the passes (After phase)
+	extraAt     map[pair][]evt // ... per (org,index)
+	rotatedOpen bool           // After == rotate done: open segments now have segmeta entries
+	flushedAll  bool           // a flush was done after the open segments were written
+	lastMRot    time.Time      // when the last metrics rotation returned
+	volume      bool           // volume-based pass: victims are read from the metadata files (decideVolume)
 }
 
 func (e *engine) ts(off int64) int64 { return e.hzMs + off }
